@@ -28,8 +28,16 @@ fn main()
         Box::new(std::io::BufReader::new(std::io::stdin()))
     };
 
-    let stdout = std::io::stdout();
-    let mut out = std::io::BufWriter::new(stdout.lock());
+    // answers go to the file named by the second argument (the code under test prints to
+    // stdout itself), or to stdout
+    let mut out: Box<dyn Write> = if args.len() > 2
+    {
+        Box::new(std::io::BufWriter::new(std::fs::File::create(&args[2]).unwrap()))
+    }
+    else
+    {
+        Box::new(std::io::BufWriter::new(std::io::stdout()))
+    };
 
     for line in input.lines()
     {
@@ -46,13 +54,14 @@ fn main()
 
         match result
         {
-            Ok(answer) => writeln!(out, "{}", answer).unwrap(),
+            Ok(answer) => { writeln!(out, "{}", answer).unwrap(); out.flush().unwrap(); }
             Err(e) =>
             {
                 let msg = if let Some(s) = e.downcast_ref::<String>() { s.clone() }
                     else if let Some(s) = e.downcast_ref::<&str>() { s.to_string() }
                     else { "?".to_string() };
                 writeln!(out, "{{\"panic\":{}}}", json::string(&msg)).unwrap();
+                out.flush().unwrap();
             }
         }
     }
